@@ -144,7 +144,23 @@ def wl_history(ctx, rng, case, force_width=None):
             for _ in range(rng.choice([0, 1, 2])):
                 fed.append((rng.choice(keys), rng.randint(1, 4)))
                 other.add(*fed[-1])
-            if sum(true.values()) == 0 and fed and rng.random() < 0.6:
+            alts = [(s.width * s.depth // dd, dd) for dd in range(1, s.width * s.depth + 1) if (s.width * s.depth) % dd == 0 and dd != s.depth and dd <= 16]
+            if alts and rng.random() < 0.3:
+                # a partner of ANOTHER shape with the same number of counters (transposed, another factorisation): the join must be refused
+                # and leave this sketch as it is (probed below as usual)
+                w2, d2 = rng.choice(alts)
+                odd = cls(width=w2, depth=d2, **bl.kw_hash(hf))
+                odd.query_type = "min"
+                odd.add(rng.choice(keys), rng.randint(1, 5))
+                case.op("join-with-another-shape-refused", (w2, d2))
+                try:
+                    s.join(odd)
+                    accepted = True
+                except Exception:
+                    accepted = False
+                ctx.check(not accepted, f"join of a {s.width}x{s.depth} sketch with a {w2}x{d2} sketch was accepted")
+                ctx.count("joins_with_another_shape_refused")
+            elif sum(true.values()) == 0 and fed and rng.random() < 0.6:
                 case.op("join-into-empty-self", fed)
                 s.join(other)
                 for ka, na in fed:
